@@ -3054,7 +3054,8 @@ impl<const RICE_MAX: u32, I: SignedInteger> ToBitStream for ResidualPartition<RI
 
                 for residual in residuals {
                     let (msb, lsb) = mask(if residual.is_negative() {
-                        (((-*residual).to_u32() - 1) << 1) + 1
+                        // -residual - 1, without negating the most negative value
+                        (((-Into::<i64>::into(*residual) - 1) as u32) << 1) + 1
                     } else {
                         (*residual).to_u32() << 1
                     });
